@@ -591,6 +591,7 @@ func C05(r *vf.Run) {
 		r.CellN("cross:console-addresses", n)
 	}
 	interleavedWithLibrary(r, func(m *mapper, a uint32, cells map[string]int64) { c05Check(r, m, a) })
+	callVolume(r, func(m *mapper, a uint32) { c05Check(r, m, a) })
 	usedAtInitTime(r)
 	otherOrders(r)
 	runChild(r, "library-first", "VERIF_LIB_FIRST=1", "VERIF_MAPPER_ORDER=0,1,2,3")
